@@ -579,11 +579,12 @@ End Config.
 
 (* ------------------------------------------------------------------ internal/report/source.go
    sourcePrinter.functions (source.go:716) walks the sorted line numbers of a file and merges a line
-   into the preceding function when  l - last.end < mergeLimit  (Go int arithmetic: wraps);
+   into the preceding function when  uint64(l) - uint64(last.end) < mergeLimit  (unsigned distance:
+   repaired, the signed subtraction used to wrap for lines 2^63 or more apart -- F25);
    generateFile (source.go:663) then visits EVERY line number from begin to end. *)
 Definition wrap64 (z : Z) : Z := (z + 9223372036854775808) mod 18446744073709551616 - 9223372036854775808.
 Definition merge_limit : Z := 20.
-Definition merges (last_end l : Z) : bool := wrap64 (l - last_end) <? merge_limit.
+Definition merges (last_end l : Z) : bool := (l - last_end) mod 18446744073709551616 <? merge_limit.
 
 (* [begin, end) ranges of the lines of one function name, lines ascending *)
 Fixpoint merge_lines (cur : option (Z * Z)) (lines : list Z) : list (Z * Z) :=
